@@ -2,6 +2,7 @@ package verifsim
 
 import (
 	"fmt"
+	"github.com/idena-network/idena-go/blockchain/attachments"
 	"strings"
 	"testing"
 
@@ -440,8 +441,10 @@ func TestVerifC10(t *testing.T) {
 		s := NewScenario(w, verifutil.NewRng(seed, 10))
 		s.Hostile, s.MaxTxs = 10, 8
 		seenDiff := map[string]bool{}
+		story := &poolStory{}
 		for i := 0; i < steps; i++ {
 			rep.Progress("C10 scenario %d seed %d step %d", sc, seed, i)
+			story.advance(w, s, rep)
 			// bias to identity-changing events batched into one identity-update block
 			if s.R.Intn(2) == 0 {
 				for _, g := range w.Burst(s.R) {
@@ -540,4 +543,98 @@ func diffClass(w *World, d *state.IdentityStateDiff) string {
 		l = append(l, k)
 	}
 	return strings.Join(sortStrings(l), ",")
+}
+
+// poolStory drives one rare but legal life of a pool at a time: identities delegate to an owner
+// that is NOT validated itself (suspended / zombie), the pool goes online, and then the owner
+// terminates itself (or kills its last member) while the pool is online.
+type poolStory struct {
+	phase   int
+	owner   *Actor
+	members []*Actor
+	waited  int
+	ending  int
+}
+
+func (p *poolStory) reset() { *p = poolStory{ending: p.ending + 1} }
+
+func (p *poolStory) advance(w *World, s *Scenario, rep *verifutil.Report) {
+	v := w.View()
+	st, vc := v.AppState.State, v.AppState.ValidatorsCache
+	if st.ValidationPeriod() != state.NonePeriod {
+		return // the txs of the story are refused during a ceremony; wait
+	}
+	p.waited++
+	if p.waited > 60 {
+		rep.Count("pool_story_abandoned_in_phase_"+fmt.Sprint(p.phase), 1)
+		p.reset()
+		return
+	}
+	switch p.phase {
+	case 0:
+		var owner *Actor
+		var members []*Actor
+		for _, a := range w.SortedActors() {
+			id := st.GetIdentity(a.Addr)
+			if a == w.God || isNode(w, a) || id.Delegatee() != nil || st.DelegationSwitch(a.Addr) != nil {
+				continue
+			}
+			if owner == nil && (id.State == state.Suspended || id.State == state.Zombie) && !vc.IsPool(a.Addr) {
+				owner = a
+				continue
+			}
+			if len(members) < 2 && id.State.NewbieOrBetter() && !vc.IsPool(a.Addr) && st.GetBalance(a.Addr).Sign() > 0 {
+				members = append(members, a)
+			}
+		}
+		if owner == nil || len(members) == 0 {
+			return
+		}
+		p.owner, p.members = owner, members
+		for _, m := range members {
+			s.SubmitGen(&Gen{Tx: w.Tx(m, types.DelegateTx, &owner.Addr, nil, nil), Kind: "story:Delegate-to-non-validated-owner"})
+		}
+		p.phase, p.waited = 1, 0
+	case 1: // delegation applied?
+		if s := st.GetIdentityState(p.owner.Addr); s != state.Suspended && s != state.Zombie {
+			p.reset() // the owner's status changed (epoch): not the story any more
+			return
+		}
+		if vc.IsPool(p.owner.Addr) {
+			rep.Count("pool_story_pools_with_non_validated_owner", 1)
+			if st.GetBalance(p.owner.Addr).Sign() == 0 {
+				s.SubmitGen(&Gen{Tx: w.Tx(w.God, types.SendTx, &p.owner.Addr, Dna(50), nil), Kind: "story:fund-owner"})
+			}
+			s.SubmitGen(&Gen{Tx: w.Tx(p.owner, types.OnlineStatusTx, nil, nil, attachments.CreateOnlineStatusAttachment(true)), Kind: "story:pool-online"})
+			p.phase, p.waited = 2, 0
+		}
+	case 2: // online?
+		if !vc.IsPool(p.owner.Addr) {
+			p.reset()
+			return
+		}
+		if vc.IsOnlineIdentity(p.owner.Addr) {
+			rep.Count("pool_story_non_validated_owner_online", 1)
+			if p.ending%2 == 0 {
+				if s0 := st.GetIdentityState(p.owner.Addr); s0 == state.Suspended || s0 == state.Zombie {
+					s.SubmitGen(&Gen{Tx: w.Tx(p.owner, types.KillTx, nil, nil, nil), Kind: "story:online-non-validated-pool-owner-kills-itself"})
+				}
+			} else {
+				for _, m := range p.members {
+					if d := st.Delegatee(m.Addr); d != nil && *d == p.owner.Addr {
+						mm := m.Addr
+						s.SubmitGen(&Gen{Tx: w.Tx(p.owner, types.KillDelegatorTx, &mm, nil, nil), Kind: "story:online-pool-kills-its-members"})
+					}
+				}
+			}
+			p.phase, p.waited = 3, 0
+		} else if p.waited%12 == 11 && !st.HasStatusSwitchAddresses(p.owner.Addr) {
+			s.SubmitGen(&Gen{Tx: w.Tx(p.owner, types.OnlineStatusTx, nil, nil, attachments.CreateOnlineStatusAttachment(true)), Kind: "story:pool-online"})
+		}
+	case 3: // let a few blocks pass (the registry oracle runs after every block), then start over
+		if p.waited > 8 {
+			rep.Count("pool_stories_completed", 1)
+			p.reset()
+		}
+	}
 }
